@@ -823,7 +823,7 @@ pub fn iter_programs(thorough: bool, r: &mut rand::rngs::StdRng) -> Vec<Episode>
     for n in 0..=4usize {
         let t = 1usize << (1usize << n); // number of functions
         let mut ops = Vec::new();
-        for tail in ["count", "last", "hint", "none"] {
+        for tail in ["count", "last", "hint", "none", "fold", "min", "max"] {
             ops.push(prog(n, vec![], tail));
             ops.push(prog(n, vec![0, 0, 0], tail));
             for k in [t - 2, t - 1, t, t + 1, 2 * t, 2 * t + 3] {
